@@ -34,6 +34,7 @@ FLAG_ORDER = ["vars", "pars", "dpars", "dvars", "rxns", "svars", "sflux", "reado
 
 def _add_readouts(rng, content):
     pool = [k for k, _ in content["vars"]] + [k for k, _ in content["pars"]] + [k for k, _ in content["derived"]]
+    pool += [k for k, _ in content.get("data", [])] * 2  # readouts can name data sets
     pool += [k for k, _ in content["rxns"]]
     for _, s in content["surs"]:
         pool += list(s["outs"])
@@ -43,6 +44,8 @@ def _add_readouts(rng, content):
         args = [rng.choice(pool + (["time"] if rng.random() < 0.2 else [])) for _ in range(n)]
         ros.append([f"ro{i}", {"args": args, "e": fexpr.gen_expr(rng, len(args), 1)}])
         pool.append(f"ro{i}")
+    if len(ros) > 1 and rng.random() < 0.5:
+        ros.reverse()  # declared in another order than they depend on each other: a readout names a LATER-declared one
     content["readouts"] = ros
 
 
@@ -102,7 +105,7 @@ def gen_event(rng, content, lens, var_names, plain):
 
 def gen_case(ctx, i, thorough=False):
     rng = ctx.rng
-    content = C.gen_content(rng, n_vars=(1, 4), n_pars=(1, 4), n_comps=(1, 7))
+    content = C.gen_content(rng, n_vars=(1, 4), n_pars=(1, 4), n_comps=(1, 7), p_data=0.35)
     _add_readouts(rng, content)
     plain = _plain_pars(content)
     var_names = [k for k, _ in content["vars"]]
@@ -806,6 +809,17 @@ def judge_case(ctx, case, R, M, S, L, shrink=True):
         ctx.violation(case, R, "building the result object failed")
         return
     ctx.count({k: case[k] for k in ("content", "segs", "events")}, shape_of(case))
+    _c = case["content"]
+    _dn = {k for k, _ in _c.get("data", [])}
+    if _dn:
+        _ros = _c.get("readouts", [])
+        if any(a in _dn for _, f in _ros for a in f["args"]):
+            ctx.hist["readout-over-data-set"] = ctx.hist.get("readout-over-data-set", 0) + 1
+        if any("c" not in cf and any(a in _dn for a in cf["args"]) for _, r in _c["rxns"] for _, cf in r["st"]):
+            ctx.hist["computed-coefficient-over-data-set"] = ctx.hist.get("computed-coefficient-over-data-set", 0) + 1
+    _names = [k for k, _ in _c.get("readouts", [])]
+    if any(a in _names[i + 1:] for i, (_, f) in enumerate(_c.get("readouts", [])) for a in f["args"]):
+        ctx.hist["readout-names-later-readout"] = ctx.hist.get("readout-names-later-readout", 0) + 1
     if "recorded" in R:
         ctx.violation(case, R["recorded"], "Simulator recorded other states / parameters than were produced / in force")
     if "after_failure" in R:
